@@ -50,6 +50,7 @@ def solve(assumptions, goal, timeout_ms, use_cvc5=True):
     """Return (status, solver, seconds, model_or_reason).  status in
     proved / refuted / unknown.  Proves assumptions => goal."""
     t0 = time.time()
+    timeout_ms = int(timeout_ms * float(os.environ.get("PYVC_TIMEOUT_SCALE", "1")))      # second attempt of a unit: larger budgets
     s = z3.Solver()
     s.set("timeout", int(timeout_ms))
     for a in assumptions:
